@@ -32,6 +32,8 @@ pub struct Part {
   /// stratum name -> (states, transitions)
   pub strata: BTreeMap<String, (u64, u64)>,
   pub caps: Vec<String>,
+  /// violation (api, kind) -> count
+  pub kinds: BTreeMap<String, u64>,
 }
 
 impl Part {
@@ -40,6 +42,7 @@ impl Part {
   }
   pub fn viol(&mut self, v: Viol) {
     self.nviol += 1;
+    *self.kinds.entry(format!("{} / {}", v.api, v.kind)).or_insert(0) += 1;
     if self.viols.len() < MAX_KEPT_VIOLS {
       self.viols.push(v);
     }
@@ -93,6 +96,9 @@ impl Part {
       let e = self.strata.entry(k).or_insert((0, 0));
       e.0 += s;
       e.1 += t;
+    }
+    for (k, c) in o.kinds {
+      *self.kinds.entry(k).or_insert(0) += c;
     }
     for c in o.caps {
       if !self.caps.contains(&c) {
@@ -284,7 +290,7 @@ pub fn finish(
   let res = json!({
     "property": id, "tier": ctx.tier, "config": ctx.config, "violations": total.nviol,
     "replays": replay_paths, "known_lines": known_lines, "caps": ev["coverage"]["caps_hit"],
-    "states": total.states, "transitions": total.transitions, "wall_s": wall,
+    "states": total.states, "transitions": total.transitions, "wall_s": wall, "violation_kinds": total.kinds,
     "first": total.viols.first().map(|v| json!({"api": v.api, "kind": v.kind, "expected": v.expected, "actual": v.actual})),
   });
   let res_path = format!("{}/engine/out/{}.{}.result.json", ctx.verif_dir, id, ctx.config);
@@ -328,8 +334,8 @@ where
 }
 
 /// Call the subject, turning a panic into `Err(message)`.
-pub fn guarded<T, F: FnOnce() -> T + std::panic::UnwindSafe>(f: F) -> Result<T, String> {
-  match std::panic::catch_unwind(f) {
+pub fn guarded<T, F: FnOnce() -> T>(f: F) -> Result<T, String> {
+  match std::panic::catch_unwind(std::panic::AssertUnwindSafe(f)) {
     Ok(v) => Ok(v),
     Err(e) => {
       let msg = if let Some(s) = e.downcast_ref::<&str>() {
